@@ -604,6 +604,11 @@ theorem scanHO_spec (hc n : Nat) (items : List Item) (h o : Option V) (hs : ∀ 
 
 /-! ## sorting -/
 
+theorem sortedLE_tail' (a : Nat) (l : List Nat) (h : sortedLE (a :: l) = true) : sortedLE l = true := by
+  cases l with
+  | nil => rfl
+  | cons b r => simp only [sortedLE, Bool.and_eq_true] at h; exact h.2
+
 theorem mem_insertBy {α : Type} (k : α → Nat) (a x : α) (l : List α) : x ∈ insertBy k a l ↔ x = a ∨ x ∈ l := by
   induction l with
   | nil => simp [insertBy]
@@ -664,6 +669,58 @@ theorem isort_ascending {α : Type} (k : α → Nat) (l : List α) (h : ascendin
       simp only [isort] at this ⊢
       rw [this]
       simp [insertBy, h.1]
+
+theorem insertBy_sorted {α : Type} (k : α → Nat) (a : α) (l : List α) (h : sortedLE (l.map k) = true) :
+    sortedLE ((insertBy k a l).map k) = true := by
+  induction l with
+  | nil => rfl
+  | cons b r ih =>
+    simp only [insertBy]
+    split
+    · rename_i hlt
+      simp only [List.map_cons, sortedLE, Bool.and_eq_true, decide_eq_true_eq]
+      exact ⟨Nat.le_of_lt hlt, by simpa using h⟩
+    · rename_i hge
+      have hr : sortedLE (r.map k) = true := sortedLE_tail' _ _ (by simpa using h)
+      have ih' := ih hr
+      cases r with
+      | nil =>
+        simp only [insertBy, List.map_cons, List.map_nil, sortedLE, Bool.and_eq_true, decide_eq_true_eq]
+        exact ⟨by omega, trivial⟩
+      | cons c r' =>
+        simp only [insertBy] at ih' ⊢
+        split
+        · rename_i h2
+          simp only [h2, if_true] at ih'
+          simp only [List.map_cons, sortedLE, Bool.and_eq_true, decide_eq_true_eq] at ih' h ⊢
+          exact ⟨by omega, ih'⟩
+        · rename_i h2
+          simp only [h2, if_false] at ih'
+          simp only [List.map_cons, sortedLE, Bool.and_eq_true, decide_eq_true_eq] at ih' h ⊢
+          exact ⟨h.1, ih'⟩
+
+theorem isort_sorted {α : Type} (k : α → Nat) (l : List α) : sortedLE ((isort k l).map k) = true := by
+  induction l with
+  | nil => rfl
+  | cons a r ih => exact insertBy_sorted k a _ ih
+
+theorem ascending_of_sorted_nodup (l : List Nat) (h : sortedLE l = true) (hn : l.Nodup) : ascending l = true := by
+  induction l with
+  | nil => rfl
+  | cons a r ih =>
+    cases r with
+    | nil => rfl
+    | cons b r' =>
+      simp only [sortedLE, Bool.and_eq_true, decide_eq_true_eq] at h
+      simp only [ascending, Bool.and_eq_true, decide_eq_true_eq]
+      rw [List.nodup_cons] at hn
+      refine ⟨?_, ih h.2 hn.2⟩
+      have : a ≠ b := fun e => hn.1 (by simp [e])
+      omega
+
+theorem isort_strict {α : Type} (k : α → Nat) (l : List α) (hn : (l.map k).Nodup) :
+    ascending ((isort k l).map k) = true :=
+  ascending_of_sorted_nodup _ (isort_sorted k l) ((((isort_perm k l).map k).nodup_iff).mpr hn)
 
 /-! ## the exported base class is the canonical arrangement of the items -/
 
@@ -745,5 +802,924 @@ theorem ofKind_xdict (alive : V → Bool) (hc : Nat) (items : List Item)
     · have hk' : (i.kind == BasePart.xdict) = false := by simpa using hk
       simp only [hk', Bool.false_eq_true, if_false, Nat.zero_add, List.nil_append] at hx ⊢
       exact ih hs' hw' hx
+
+theorem ofKind_reactors (alive : V → Bool) (hc : Nat) (items : List Item)
+    (hs : ∀ i ∈ items, ItemShape hc i) (hw : items.all (itemWF alive) = true)
+    (hx : countKind .reactors items ≤ 1) :
+    reactorsPart (reactorsOf items) = .ok (ofKind .reactors items) := by
+  induction items with
+  | nil => rfl
+  | cons i is ih =>
+    have hs' : ∀ j ∈ is, ItemShape hc j := fun j hj => hs j (List.mem_cons_of_mem _ hj)
+    have hwi : itemWF alive i = true := by
+      rw [List.all_eq_true] at hw; exact hw i List.mem_cons_self
+    have hw' : is.all (itemWF alive) = true := by
+      rw [List.all_eq_true] at hw ⊢; exact fun j hj => hw j (List.mem_cons_of_mem _ hj)
+    rw [countKind_cons] at hx
+    rw [ofKind_cons, reactorsOf]
+    by_cases hk : i.kind = .reactors
+    · simp only [hk, beq_self_eq_true, if_true] at hx ⊢
+      rw [ofKind_zero _ _ (by omega)]
+      cases i with
+      | handle t => simp [Item.kind] at hk
+      | owner t => simp [Item.kind] at hk
+      | group g =>
+        obtain ⟨st, mid, c, rfl, hst, hcl, hmid⟩ := hs _ List.mem_cons_self
+        have hre : st.val = .str acadReactors := by
+          rw [kind_of_shape] at hk
+          by_cases e : st.val = .str acadReactors
+          · exact e
+          · exfalso; revert hk; simp only [beq_iff_eq, e, if_false]; split <;> decide
+        simp only [itemWF, groupWF, Bool.and_eq_true, getLast_shape, groupBody_shape,
+          show groupKey (st :: (mid ++ [c])) = st.val from rfl, hre, beq_self_eq_true, if_true] at hwi
+        obtain ⟨hlast, ⟨hall, hnd⟩, hne⟩ := hwi
+        have hc' : c = closeBrace := by simpa using hlast
+        have hn : (Item.group (st :: (mid ++ [c]))).normTags = st :: (isort hexKeyT mid ++ [c]) := by
+          simp [Item.normTags, hk, Item.tags, sortGroup, groupBody_shape, getLast_shape]
+        rw [hn]
+        simp only [Item.tags, groupBody_shape, List.append_nil]
+        rw [List.all_eq_true] at hall
+        -- the set of handles is not empty
+        cases hm : mid with
+        | nil => simp [hm] at hne
+        | cons m1 mr =>
+          rw [← hm]
+          have hmap : mid.map (·.val) = m1.val :: mr.map (·.val) := by simp [hm]
+          have hpart : reactorsPart (some (mid.map (·.val))) = reactorsOut (mid.map (·.val)) := by
+            rw [hmap]; rfl
+          rw [hpart]
+          have hkeys : (mid.map (·.val)).all (fun v => (hexKeyV v).isSome) = true := by
+            rw [List.all_eq_true]
+            intro v hv
+            obtain ⟨t, ht, rfl⟩ := List.mem_map.mp hv
+            have := hall t ht
+            simp only [Bool.and_eq_true] at this
+            exact this.2
+          simp only [reactorsOut, hkeys, if_true]
+          have hst' : st = ⟨102, .str acadReactors⟩ := by
+            rw [← tag_eta st, isAppStart_code hst, hre]
+          have hsorted : (isort (fun v => (hexKeyV v).getD 0) (mid.map (·.val))).map (fun v => (⟨reactorHandleCode, v⟩ : Tag))
+              = isort hexKeyT mid := by
+            rw [isort_map (fun v => (hexKeyV v).getD 0) (·.val) mid, List.map_map]
+            have : (fun x : Tag => (hexKeyV x.val).getD 0) = hexKeyT := rfl
+            rw [this]
+            conv => rhs; rw [← List.map_id (isort hexKeyT mid)]
+            apply List.map_congr_left
+            intro t ht
+            rw [mem_isort] at ht
+            have := hall t ht
+            simp only [Bool.and_eq_true, beq_iff_eq] at this
+            simp only [Function.comp, id]
+            rw [← this.1]
+          rw [hsorted, hst', hc']
+          rfl
+    · have hk' : (i.kind == BasePart.reactors) = false := by simpa using hk
+      simp only [hk', Bool.false_eq_true, if_false, Nat.zero_add, List.nil_append] at hx ⊢
+      exact ih hs' hw' hx
+
+theorem ofKind_handle (hc : Nat) (items : List Item) (hs : ∀ i ∈ items, ItemShape hc i)
+    (hh : countKind .handle items = 1) :
+    ∃ v, hOf items = some v ∧ ofKind .handle items = [⟨hc, v⟩] := by
+  induction items with
+  | nil => simp [countKind] at hh
+  | cons i is ih =>
+    have hs' : ∀ j ∈ is, ItemShape hc j := fun j hj => hs j (List.mem_cons_of_mem _ hj)
+    rw [countKind_cons] at hh
+    rw [ofKind_cons]
+    cases i with
+    | handle t =>
+      have hcode : t.code = hc := hs _ List.mem_cons_self
+      simp only [Item.kind, beq_self_eq_true, if_true] at hh
+      refine ⟨t.val, rfl, ?_⟩
+      rw [ofKind_zero _ _ (by omega)]
+      simp [Item.kind, Item.normTags, Item.tags]
+      rw [← hcode]
+    | owner t =>
+      simp only [Item.kind] at hh
+      have hx2 : ((BasePart.owner == BasePart.handle) = true) = False := by decide
+      simp only [hx2, if_false, Nat.zero_add] at hh
+      obtain ⟨v, h1, h2⟩ := ih hs' hh
+      exact ⟨v, by simpa [hOf] using h1, by simpa [Item.kind] using h2⟩
+    | group g =>
+      have e1 : ((Item.group g).kind == BasePart.handle) = false := by
+        rw [kind_group]; split <;> (try split) <;> decide
+      simp only [e1, Bool.false_eq_true, if_false, Nat.zero_add] at hh
+      obtain ⟨v, h1, h2⟩ := ih hs' hh
+      exact ⟨v, by simpa [hOf] using h1, by simpa [e1] using h2⟩
+
+theorem ofKind_owner (hc : Nat) (items : List Item) (hs : ∀ i ∈ items, ItemShape hc i)
+    (hh : countKind .owner items = 1) :
+    ∃ v, oOf items = some v ∧ ofKind .owner items = [⟨330, v⟩] := by
+  induction items with
+  | nil => simp [countKind] at hh
+  | cons i is ih =>
+    have hs' : ∀ j ∈ is, ItemShape hc j := fun j hj => hs j (List.mem_cons_of_mem _ hj)
+    rw [countKind_cons] at hh
+    rw [ofKind_cons]
+    cases i with
+    | owner t =>
+      have hcode : t.code = 330 := (hs _ List.mem_cons_self).1
+      simp only [Item.kind, beq_self_eq_true, if_true] at hh
+      refine ⟨t.val, rfl, ?_⟩
+      rw [ofKind_zero _ _ (by omega)]
+      simp [Item.kind, Item.normTags, Item.tags]
+      rw [← hcode]
+    | handle t =>
+      simp only [Item.kind] at hh
+      have hx2 : ((BasePart.handle == BasePart.owner) = true) = False := by decide
+      simp only [hx2, if_false, Nat.zero_add] at hh
+      obtain ⟨v, h1, h2⟩ := ih hs' hh
+      exact ⟨v, by simpa [oOf] using h1, by simpa [Item.kind] using h2⟩
+    | group g =>
+      have e1 : ((Item.group g).kind == BasePart.owner) = false := by
+        rw [kind_group]; split <;> (try split) <;> decide
+      simp only [e1, Bool.false_eq_true, if_false, Nat.zero_add] at hh
+      obtain ⟨v, h1, h2⟩ := ih hs' hh
+      exact ⟨v, by simpa [oOf] using h1, by simpa [e1] using h2⟩
+
+/-! ## export (load t) = canon t -/
+
+theorem othersOf_keys (items : List Item) :
+    (othersOf items).map (·.1) = (items.filter (fun i => i.kind == .appdata)).map (fun i => groupKey i.tags) := by
+  induction items with
+  | nil => rfl
+  | cons i is ih =>
+    simp only [othersOf, List.filter_cons]
+    split <;> simp [ih]
+
+/-- the facts packed in `entityWF` -/
+theorem entityWF_unpack (alive : V → Bool) (t : List Tag) (h : entityWF alive t = true) :
+    ∃ t0 r items rest, t = t0 :: r ∧ t0.code = 0 ∧ strOnly t = true ∧
+      parseItems (hcOf t0.val) r none = some (items, rest) ∧ itemsWF alive items = true ∧ restWF rest = true := by
+  cases t with
+  | nil => simp [entityWF] at h
+  | cons t0 r =>
+    simp only [entityWF, Bool.and_eq_true, beq_iff_eq] at h
+    obtain ⟨⟨h0, hstr⟩, hm⟩ := h
+    cases hp : parseItems (hcOf t0.val) r none with
+    | none => rw [hp] at hm; cases hm
+    | some p =>
+      obtain ⟨items, rest⟩ := p
+      rw [hp] at hm
+      simp only [Bool.and_eq_true] at hm
+      exact ⟨t0, r, items, rest, rfl, h0, hstr, hp, hm.1, hm.2⟩
+
+theorem itemsWF_unpack (alive : V → Bool) (items : List Item) (h : itemsWF alive items = true) :
+    countKind .handle items = 1 ∧ countKind .owner items = 1 ∧ countKind .xdict items ≤ 1 ∧ countKind .reactors items ≤ 1
+      ∧ ((othersOf items).map (·.1)).Nodup ∧ items.all (itemWF alive) = true := by
+  simp only [itemsWF, Bool.and_eq_true, beq_iff_eq, decide_eq_true_eq] at h
+  obtain ⟨⟨⟨⟨⟨h1, h2⟩, h3⟩, h4⟩, h5⟩, h6⟩ := h
+  refine ⟨h1, h2, h3, h4, ?_, h6⟩
+  rw [othersOf_keys, ← nodupV_iff]
+  exact h5
+
+theorem roundtrip_canon (alive : V → Bool) (t : List Tag) (h : entityWF alive t = true) :
+    roundtrip alive t = .ok (canon t) := by
+  obtain ⟨t0, r, items, rest, rfl, h0, hstr, hp, hiw, hrw⟩ := entityWF_unpack alive t h
+  obtain ⟨hch, hco, hcx, hcr, hkeys, hall⟩ := itemsWF_unpack alive items hiw
+  obtain ⟨hhead, hshape⟩ := parseItems_shape _ r none items rest hp
+  simp only at hshape
+  have hcb := parseItems_collectBase (hcOf t0.val) r none items rest [t0] [] hp
+  simp only [List.length_nil, List.nil_append] at hcb
+  -- ExtendedTags._setup
+  have hns : isAppStart t0 = false := by simp [isAppStart, h0]
+  have hne : isEndOfClass t0 = false := by simp [isEndOfClass, isEO, h0]
+  have hsetup : setup (t0 :: r) = .ok ⟨(t0 :: encode 0 items) ::
+        (collectGroups (fun t => t.code == 100) isEndOfClass rest).1, groupsOf items,
+        (collectGroups isEO (fun t => isEO t || t.code == 1001)
+          (collectGroups (fun t => t.code == 100) isEndOfClass rest).2).1, restXdata rest⟩ := by
+    have hcons := rest_consumed rest hhead
+    simp only at hcons
+    simp only [setup, collectBase, hns, hne, Bool.false_eq_true, if_false, List.nil_append, hcb, hcons, if_true]
+    rfl
+  have hcases := hcOf_cases t0.val
+  have hc102 : hcOf t0.val ≠ 102 := by rcases hcases with e | e <;> rw [e] <;> decide
+  -- setup_app_data
+  have happ := setupApp_spec alive (hcOf t0.val) items ⟨[], none, none⟩ hshape hall (by simpa using hkeys)
+    hcx (by simp) hcr (by simp)
+  simp only [List.nil_append, Option.none_or] at happ
+  -- handle and owner
+  have hscan : scanHO (hcOf t0.val) (t0 :: encode 0 items) none none = (hOf items, oOf items) := by
+    have e1 : (t0.code == hcOf t0.val) = false := by
+      rw [h0]; rcases hcases with e | e <;> rw [e] <;> decide
+    have e2 : (t0.code == 330) = false := by rw [h0]; decide
+    simp only [scanHO, e1, e2, Bool.false_eq_true, if_false]
+    rw [scanHO_spec _ 0 items none none hshape hc102 (by simp [hch]) (by simp [hco])]
+    simp
+  obtain ⟨hv, hh1, hh2⟩ := ofKind_handle _ items hshape hch
+  obtain ⟨ov, ho1, ho2⟩ := ofKind_owner _ items hshape hco
+  -- XDATA
+  have hxw : (restXdata rest).all (fun g => g.all validX) = true ∧ nodupV ((restXdata rest).map groupKey) = true := by
+    simpa [restWF, Bool.and_eq_true] using hrw
+  have hxv : ∀ g ∈ restXdata rest, g.all validX = true := by
+    have := hxw.1; rw [List.all_eq_true] at this; exact this
+  have hxl : xdataLoad (restXdata rest) [] = (restXdata rest).map (fun g => (groupKey g, g)) := by
+    have := xdataLoad_spec (restXdata rest) []
+      (fun g hg => by
+        obtain ⟨t, r, e, _⟩ := collectGroups_nonempty _ _ _ g hg
+        exact ⟨t, r, e⟩) hxv (by simpa [nodupV_iff] using hxw.2)
+    simpa using this
+  -- load
+  have hload : load (t0 :: r) = .ok ⟨t0.val, hOf items, oOf items, othersOf items, xdictOf items, reactorsOf items,
+      (collectGroups (fun t => t.code == 100) isEndOfClass rest).1,
+      (collectGroups isEO (fun t => isEO t || t.code == 1001)
+          (collectGroups (fun t => t.code == 100) isEndOfClass rest).2).1,
+      (restXdata rest).map (fun g => (groupKey g, g))⟩ := by
+    simp only [load, hsetup, happ, hscan, hxl]
+  -- export
+  have hre := ofKind_reactors alive _ items hshape hall hcr
+  have hxd := ofKind_xdict alive _ items hshape hall hcx
+  have hflat : (collectGroups (fun t => t.code == 100) isEndOfClass rest).1.flatten ++
+      ((collectGroups isEO (fun t => isEO t || t.code == 1001)
+          (collectGroups (fun t => t.code == 100) isEndOfClass rest).2).1.flatten ++ (restXdata rest).flatten) = rest := by
+    have h1 := collectGroups_flatten (fun t => t.code == 100) isEndOfClass rest
+    have h2 := collectGroups_flatten isEO (fun t => isEO t || t.code == 1001)
+      (collectGroups (fun t => t.code == 100) isEndOfClass rest).2
+    have h3 := collectGroups_flatten (fun t => t.code == 1001) (fun t => t.code == 1001)
+      (collectGroups isEO (fun t => isEO t || t.code == 1001)
+        (collectGroups (fun t => t.code == 100) isEndOfClass rest).2).2
+    have hcons := rest_consumed rest hhead
+    simp only at hcons
+    rw [hcons, List.append_nil] at h3
+    simp only [restXdata]
+    rw [h3, h2, h1]
+  simp only [roundtrip, hload, exportEnt, hre]
+  simp only [entityOrder, baseOrder, storageOrder, List.flatMap_cons, List.flatMap_nil, List.append_nil,
+    basePart, storagePart, xdataOut, hh1, ho1, Option.getD_some, xdata_flatten _ hxv, ← hxd, ← ofKind_appdata,
+    canon, hp, canonItems, hh2, ho2]
+  have ht0 : (⟨structureMarker, t0.val⟩ : Tag) = t0 := by
+    rw [← tag_eta t0, h0]; rfl
+  rw [ht0]
+  simp only [List.cons_append, List.append_assoc, List.nil_append, ownerCode]
+  conv => rhs; rw [← hflat]
+
+/-! ## `canon` only rearranges; it is the identity on inputs that are already in ezdxf's order -/
+
+theorem parseItems_flatten (hc : Nat) (ts : List Tag) (cur : Option (Tag × List Tag)) (items : List Item)
+    (rest : List Tag) (h : parseItems hc ts cur = some (items, rest)) :
+    (match cur with | none => [] | some (_, g) => g) ++ ts = items.flatMap Item.tags ++ rest := by
+  induction ts generalizing cur items rest with
+  | nil =>
+    cases cur with
+    | none => simp only [parseItems, Option.some.injEq, Prod.mk.injEq] at h; obtain ⟨rfl, rfl⟩ := h; rfl
+    | some p => simp [parseItems] at h
+  | cons t r ih =>
+    cases cur with
+    | some p =>
+      obtain ⟨st, g⟩ := p
+      simp only [parseItems] at h
+      split at h
+      · split at h
+        · rename_i is rest' hp
+          simp only [Option.some.injEq, Prod.mk.injEq] at h
+          obtain ⟨rfl, rfl⟩ := h
+          have := ih none is rest' hp
+          simp only [List.nil_append] at this
+          simp [Item.tags, this]
+        · cases h
+      · have := ih (some (st, g ++ [t])) items rest h
+        simpa using this
+    | none =>
+      simp only [parseItems] at h
+      split at h
+      · have := ih (some (t, [t])) items rest h
+        simpa using this
+      · split at h
+        · simp only [Option.some.injEq, Prod.mk.injEq] at h
+          obtain ⟨rfl, rfl⟩ := h
+          simp
+        · split at h
+          · split at h
+            · rename_i is rest' hp
+              simp only [Option.some.injEq, Prod.mk.injEq] at h
+              obtain ⟨rfl, rfl⟩ := h
+              have := ih none is rest' hp
+              simp only [List.nil_append] at this ⊢
+              simp [Item.tags, this]
+            · cases h
+          · split at h
+            · split at h
+              · rename_i is rest' hp
+                simp only [Option.some.injEq, Prod.mk.injEq] at h
+                obtain ⟨rfl, rfl⟩ := h
+                have := ih none is rest' hp
+                simp only [List.nil_append] at this ⊢
+                simp [Item.tags, this]
+              · cases h
+            · cases h
+
+theorem canonItems_cons (i : Item) (is : List Item) :
+    canonItems (i :: is) =
+      ((if i.kind == .handle then i.normTags else []) ++ ofKind .handle is) ++
+      ((if i.kind == .appdata then i.normTags else []) ++ ofKind .appdata is) ++
+      ((if i.kind == .xdict then i.normTags else []) ++ ofKind .xdict is) ++
+      ((if i.kind == .reactors then i.normTags else []) ++ ofKind .reactors is) ++
+      ((if i.kind == .owner then i.normTags else []) ++ ofKind .owner is) := by
+  simp only [canonItems, ofKind_cons]
+
+theorem sortedLE_head (a : Nat) (l : List Nat) (h : sortedLE (a :: l) = true) : ∀ x ∈ l, a ≤ x := by
+  induction l generalizing a with
+  | nil => simp
+  | cons b r ih =>
+    simp only [sortedLE, Bool.and_eq_true, decide_eq_true_eq] at h
+    intro x hx
+    simp only [List.mem_cons] at hx
+    rcases hx with rfl | hx
+    · exact h.1
+    · exact Nat.le_trans h.1 (ih b h.2 x hx)
+
+theorem sortedLE_tail (a : Nat) (l : List Nat) (h : sortedLE (a :: l) = true) : sortedLE l = true := by
+  cases l with
+  | nil => rfl
+  | cons b r => simp only [sortedLE, Bool.and_eq_true] at h; exact h.2
+
+theorem ofKind_nil_of_lt (k : BasePart) (items : List Item) (h : ∀ x ∈ items, stage k < stage x.kind) :
+    ofKind k items = [] := by
+  apply ofKind_zero
+  simp only [countKind, List.length_eq_zero_iff, List.filter_eq_nil_iff, beq_iff_eq]
+  intro x hx e
+  have := h x hx
+  rw [e] at this
+  omega
+
+theorem normTags_sorted (hc : Nat) (i : Item) (hs : ItemShape hc i) (h : itemSorted i = true) : i.normTags = i.tags := by
+  unfold Item.normTags
+  split
+  · rename_i hk
+    cases i with
+    | handle t => simp [Item.kind] at hk
+    | owner t => simp [Item.kind] at hk
+    | group g =>
+      obtain ⟨st, mid, c, rfl, -, -, -⟩ := hs
+      have hre : st.val = .str acadReactors := by
+        rw [kind_of_shape] at hk
+        by_cases e : st.val = .str acadReactors
+        · exact e
+        · exfalso; revert hk; simp only [beq_iff_eq, e, if_false]; split <;> decide
+      simp only [itemSorted, show groupKey (st :: (mid ++ [c])) = st.val from rfl, hre, beq_self_eq_true, if_true,
+        groupBody_shape] at h
+      simp [Item.tags, sortGroup, groupBody_shape, getLast_shape, isort_ascending hexKeyT mid h]
+  · rfl
+
+theorem canonItems_ordered (hc : Nat) (items : List Item) (hs : ∀ i ∈ items, ItemShape hc i)
+    (h : baseOrdered items = true) : canonItems items = items.flatMap Item.tags := by
+  induction items with
+  | nil => rfl
+  | cons i is ih =>
+    simp only [baseOrdered, List.map_cons, List.all_cons, Bool.and_eq_true] at h
+    obtain ⟨hsort, hsi, hsr⟩ := h
+    have hs' : ∀ j ∈ is, ItemShape hc j := fun j hj => hs j (List.mem_cons_of_mem _ hj)
+    have hle := sortedLE_head _ _ hsort
+    have hle' : ∀ x ∈ is, stage i.kind ≤ stage x.kind := by
+      intro x hx
+      exact hle _ (List.mem_map_of_mem (f := fun i => stage i.kind) hx)
+    have ih' := ih hs' (by simp only [baseOrdered, Bool.and_eq_true]; exact ⟨sortedLE_tail _ _ hsort, hsr⟩)
+    have hn := normTags_sorted hc i (hs i List.mem_cons_self) hsi
+    rw [canonItems_cons, hn, List.flatMap_cons, ← ih']
+    have hlt : ∀ k, stage k < stage i.kind → ofKind k is = [] := by
+      intro k hk
+      exact ofKind_nil_of_lt k is (fun x hx => Nat.lt_of_lt_of_le hk (hle' x hx))
+    cases hk : i.kind with
+    | handle => simp [canonItems]
+    | appdata =>
+      have e0 := hlt .handle (by rw [hk]; decide)
+      simp [canonItems, e0]
+    | xdict =>
+      have e0 := hlt .handle (by rw [hk]; decide)
+      have e1 := hlt .appdata (by rw [hk]; decide)
+      simp [canonItems, e0, e1]
+    | reactors =>
+      have e0 := hlt .handle (by rw [hk]; decide)
+      have e1 := hlt .appdata (by rw [hk]; decide)
+      have e2 := hlt .xdict (by rw [hk]; decide)
+      simp [canonItems, e0, e1, e2]
+    | owner =>
+      have e0 := hlt .handle (by rw [hk]; decide)
+      have e1 := hlt .appdata (by rw [hk]; decide)
+      have e2 := hlt .xdict (by rw [hk]; decide)
+      have e3 := hlt .reactors (by rw [hk]; decide)
+      simp [canonItems, e0, e1, e2, e3]
+
+theorem canon_ordered_id (t : List Tag) (ho : entityOrdered t = true) : canon t = t := by
+  cases t with
+  | nil => rfl
+  | cons t0 r =>
+    simp only [entityOrdered] at ho
+    cases hp : parseItems (hcOf t0.val) r none with
+    | none => rw [hp] at ho; cases ho
+    | some p =>
+      obtain ⟨items, rest⟩ := p
+      rw [hp] at ho
+      simp only at ho
+      have hshape := (parseItems_shape _ r none items rest hp).2
+      simp only at hshape
+      have hflat := parseItems_flatten _ r none items rest hp
+      simp only [List.nil_append] at hflat
+      simp only [canon, hp, canonItems_ordered _ items hshape ho]
+      rw [hflat]; rfl
+
+theorem perm_move {α : Type} (A X Y : List α) : (X ++ (A ++ Y)).Perm (A ++ (X ++ Y)) := by
+  rw [← List.append_assoc, ← List.append_assoc]
+  exact List.Perm.append_right Y List.perm_append_comm
+
+theorem normTags_perm (hc : Nat) (i : Item) (hs : ItemShape hc i) : i.normTags.Perm i.tags := by
+  unfold Item.normTags
+  split
+  · rename_i hk
+    cases i with
+    | handle t => simp [Item.kind] at hk
+    | owner t => simp [Item.kind] at hk
+    | group g =>
+      obtain ⟨st, mid, c, rfl, -, -, -⟩ := hs
+      simp only [Item.tags, sortGroup, groupBody_shape, getLast_shape]
+      exact List.Perm.cons st (List.Perm.append_right [c] (isort_perm hexKeyT mid))
+  · exact List.Perm.refl _
+
+theorem canonItems_perm (hc : Nat) (items : List Item) (hs : ∀ i ∈ items, ItemShape hc i) :
+    (canonItems items).Perm (items.flatMap Item.tags) := by
+  induction items with
+  | nil => exact List.Perm.refl _
+  | cons i is ih =>
+    have hs' : ∀ j ∈ is, ItemShape hc j := fun j hj => hs j (List.mem_cons_of_mem _ hj)
+    have ih' := ih hs'
+    have hn := normTags_perm hc i (hs i List.mem_cons_self)
+    rw [canonItems_cons, List.flatMap_cons]
+    refine List.Perm.trans ?_ (List.Perm.append hn ih')
+    simp only [canonItems]
+    cases hk : i.kind with
+    | handle => simp
+    | appdata =>
+      simp only [show (BasePart.appdata == BasePart.handle) = false from rfl, beq_self_eq_true, if_true,
+        show (BasePart.appdata == BasePart.xdict) = false from rfl,
+        show (BasePart.appdata == BasePart.reactors) = false from rfl,
+        show (BasePart.appdata == BasePart.owner) = false from rfl, Bool.false_eq_true, if_false, List.nil_append,
+        List.append_assoc]
+      exact perm_move _ _ _
+    | xdict =>
+      simp only [show (BasePart.xdict == BasePart.handle) = false from rfl, beq_self_eq_true, if_true,
+        show (BasePart.xdict == BasePart.appdata) = false from rfl,
+        show (BasePart.xdict == BasePart.reactors) = false from rfl,
+        show (BasePart.xdict == BasePart.owner) = false from rfl, Bool.false_eq_true, if_false, List.nil_append,
+        List.append_assoc]
+      rw [← List.append_assoc (ofKind .handle is)]
+      refine (perm_move _ _ _).trans ?_
+      simp [List.append_assoc]
+    | reactors =>
+      simp only [show (BasePart.reactors == BasePart.handle) = false from rfl, beq_self_eq_true, if_true,
+        show (BasePart.reactors == BasePart.appdata) = false from rfl,
+        show (BasePart.reactors == BasePart.xdict) = false from rfl,
+        show (BasePart.reactors == BasePart.owner) = false from rfl, Bool.false_eq_true, if_false, List.nil_append,
+        List.append_assoc]
+      rw [← List.append_assoc (ofKind .appdata is), ← List.append_assoc (ofKind .handle is)]
+      refine (perm_move _ _ _).trans ?_
+      simp [List.append_assoc]
+    | owner =>
+      simp only [show (BasePart.owner == BasePart.handle) = false from rfl, beq_self_eq_true, if_true,
+        show (BasePart.owner == BasePart.appdata) = false from rfl,
+        show (BasePart.owner == BasePart.xdict) = false from rfl,
+        show (BasePart.owner == BasePart.reactors) = false from rfl, Bool.false_eq_true, if_false, List.nil_append,
+        List.append_assoc]
+      rw [← List.append_assoc (ofKind .xdict is), ← List.append_assoc (ofKind .appdata is),
+        ← List.append_assoc (ofKind .handle is)]
+      refine (perm_move _ _ _).trans ?_
+      simp [List.append_assoc]
+
+theorem canon_perm (t : List Tag) : (canon t).Perm t := by
+  cases t with
+  | nil => exact List.Perm.refl _
+  | cons t0 r =>
+    simp only [canon]
+    cases hp : parseItems (hcOf t0.val) r none with
+    | none => exact List.Perm.refl _
+    | some p =>
+      obtain ⟨items, rest⟩ := p
+      simp only
+      have hshape := (parseItems_shape _ r none items rest hp).2
+      simp only at hshape
+      have hflat := parseItems_flatten _ r none items rest hp
+      simp only [List.nil_append] at hflat
+      rw [hflat]
+      exact List.Perm.cons t0 (List.Perm.append_right rest (canonItems_perm _ items hshape))
+
+/-! ## parsing the tags of well-shaped items gives the items back -/
+
+theorem parseItems_pending (hc : Nat) (st c : Tag) (mid acc R : List Tag)
+    (hm : ∀ t ∈ mid, isAppClose st t = false) (hc' : isAppClose st c = true) :
+    parseItems hc (mid ++ c :: R) (some (st, acc)) =
+      (match parseItems hc R none with
+       | some (is, rest) => some (.group (acc ++ mid ++ [c]) :: is, rest)
+       | none => none) := by
+  induction mid generalizing acc with
+  | nil =>
+    simp only [List.nil_append, parseItems, hc', if_true, List.append_nil]
+    cases parseItems hc R none with
+    | none => rfl
+    | some p => rfl
+  | cons m mr ih =>
+    have h1 : isAppClose st m = false := hm m List.mem_cons_self
+    simp only [List.cons_append, parseItems, h1, Bool.false_eq_true, if_false]
+    rw [ih (acc ++ [m]) (fun t ht => hm t (List.mem_cons_of_mem _ ht))]
+    simp [List.append_assoc]
+
+theorem parseItems_of_items (hc : Nat) (hhc : hc = 5 ∨ hc = 105) (items : List Item) (rest : List Tag)
+    (hs : ∀ i ∈ items, ItemShape hc i) (hr : HeadEnd rest) :
+    parseItems hc (items.flatMap Item.tags ++ rest) none = some (items, rest) := by
+  induction items with
+  | nil =>
+    rcases hr with rfl | ⟨h, tl, rfl, he⟩
+    · rfl
+    · have : isAppStart h = false := by
+        have := isEndOfClass_code he
+        simp only [isAppStart, Bool.and_eq_false_iff, beq_eq_false_iff_ne]
+        left; omega
+      simp [parseItems, this, he]
+  | cons i is ih =>
+    have hs' : ∀ j ∈ is, ItemShape hc j := fun j hj => hs j (List.mem_cons_of_mem _ hj)
+    have ih' := ih hs'
+    cases i with
+    | handle t =>
+      have hcode : t.code = hc := hs _ List.mem_cons_self
+      have h1 : isAppStart t = false := by
+        simp only [isAppStart, Bool.and_eq_false_iff, beq_eq_false_iff_ne]; left; omega
+      have h2 : isEndOfClass t = false := by
+        simp only [isEndOfClass, isEO, Bool.or_eq_false_iff, Bool.and_eq_false_iff, beq_eq_false_iff_ne]
+        refine ⟨⟨by omega, Or.inl (by omega)⟩, by omega⟩
+      simp [Item.tags, parseItems, h1, h2, hcode, ih']
+    | owner t =>
+      obtain ⟨hcode, hne⟩ := hs _ List.mem_cons_self
+      have h1 : isAppStart t = false := by
+        simp only [isAppStart, Bool.and_eq_false_iff, beq_eq_false_iff_ne]; left; omega
+      have h2 : isEndOfClass t = false := by
+        simp only [isEndOfClass, isEO, Bool.or_eq_false_iff, Bool.and_eq_false_iff, beq_eq_false_iff_ne]
+        refine ⟨⟨by omega, Or.inl (by omega)⟩, by omega⟩
+      have h3 : ((330 : Nat) == hc) = false := by
+        rw [beq_eq_false_iff_ne]; omega
+      simp only [List.flatMap_cons, Item.tags, List.cons_append, List.nil_append, parseItems, h1, h2, hcode, h3,
+        Bool.false_eq_true, if_false, beq_self_eq_true, if_true, ih']
+    | group g =>
+      obtain ⟨st, mid, c, rfl, hst, hcl, hmid⟩ := hs _ List.mem_cons_self
+      simp only [List.flatMap_cons, Item.tags, List.cons_append, List.append_assoc, parseItems, hst, if_true]
+      rw [parseItems_pending hc st c mid [st] _ hmid hcl]
+      simp only [List.nil_append, ih']
+      rfl
+
+/-! ## the items of `canon t` -/
+
+def Item.norm (i : Item) : Item :=
+  match i with
+  | .group g => if i.kind == .reactors then .group (sortGroup g) else i
+  | _ => i
+
+def byKind (k : BasePart) (items : List Item) : List Item := (items.filter (fun i => i.kind == k)).map Item.norm
+
+def cItems (items : List Item) : List Item :=
+  byKind .handle items ++ byKind .appdata items ++ byKind .xdict items ++ byKind .reactors items ++ byKind .owner items
+
+theorem norm_tags (i : Item) : i.norm.tags = i.normTags := by
+  cases i with
+  | handle t => simp [Item.norm, Item.normTags, Item.kind, Item.tags]
+  | owner t => simp [Item.norm, Item.normTags, Item.kind, Item.tags]
+  | group g =>
+    simp only [Item.norm, Item.normTags]
+    split <;> simp [Item.tags]
+
+theorem sortGroup_key (st : Tag) (r : List Tag) : groupKey (sortGroup (st :: r)) = st.val := rfl
+
+theorem norm_kind (hc : Nat) (i : Item) (hs : ItemShape hc i) : i.norm.kind = i.kind := by
+  cases i with
+  | handle t => rfl
+  | owner t => rfl
+  | group g =>
+    obtain ⟨st, mid, c, rfl, -, -, -⟩ := hs
+    simp only [Item.norm]
+    split
+    · simp only [kind_group, sortGroup_key]; rfl
+    · rfl
+
+theorem byKind_tags (k : BasePart) (items : List Item) : (byKind k items).flatMap Item.tags = ofKind k items := by
+  simp only [byKind, ofKind, List.flatMap_map, norm_tags]
+
+theorem cItems_tags (items : List Item) : (cItems items).flatMap Item.tags = canonItems items := by
+  simp only [cItems, canonItems, List.flatMap_append, byKind_tags]
+
+theorem mem_byKind (hc : Nat) (k : BasePart) (items : List Item) (hs : ∀ i ∈ items, ItemShape hc i) (j : Item)
+    (hj : j ∈ byKind k items) : ∃ i ∈ items, j = i.norm ∧ j.kind = k := by
+  simp only [byKind, List.mem_map, List.mem_filter, beq_iff_eq] at hj
+  obtain ⟨i, ⟨hi, hk⟩, rfl⟩ := hj
+  exact ⟨i, hi, rfl, by rw [norm_kind hc i (hs i hi), hk]⟩
+
+theorem mem_cItems (hc : Nat) (items : List Item) (hs : ∀ i ∈ items, ItemShape hc i) (j : Item)
+    (hj : j ∈ cItems items) : ∃ i ∈ items, j = i.norm := by
+  simp only [cItems, List.mem_append] at hj
+  rcases hj with (((hj | hj) | hj) | hj) | hj <;>
+    (obtain ⟨i, hi, e, _⟩ := mem_byKind hc _ items hs j hj; exact ⟨i, hi, e⟩)
+
+/-- facts about a well-formed reactors group that survive sorting -/
+theorem norm_shape_wf (alive : V → Bool) (hc : Nat) (i : Item) (hs : ItemShape hc i) (hw : itemWF alive i = true) :
+    ItemShape hc i.norm ∧ itemWF alive i.norm = true ∧ itemSorted i.norm = true := by
+  cases i with
+  | handle t => exact ⟨hs, rfl, rfl⟩
+  | owner t => exact ⟨hs, rfl, rfl⟩
+  | group g =>
+    obtain ⟨st, mid, c, rfl, hst, hcl, hmid⟩ := hs
+    simp only [Item.norm]
+    by_cases hre : st.val = .str acadReactors
+    · have hk : (Item.group (st :: (mid ++ [c]))).kind = .reactors := by rw [kind_of_shape]; simp [hre]
+      simp only [hk, beq_self_eq_true, if_true]
+      simp only [itemWF, groupWF, Bool.and_eq_true, getLast_shape, groupBody_shape,
+        show groupKey (st :: (mid ++ [c])) = st.val from rfl, hre, beq_self_eq_true, if_true] at hw
+      obtain ⟨hlast, ⟨hall, hnd⟩, hne⟩ := hw
+      have hsg : sortGroup (st :: (mid ++ [c])) = st :: (isort hexKeyT mid ++ [c]) := by
+        simp [sortGroup, groupBody_shape, getLast_shape]
+      rw [hsg]
+      rw [List.all_eq_true] at hall
+      have hall' : ∀ t ∈ isort hexKeyT mid, (t.code == reactorHandleCode && (hexKeyV t.val).isSome) = true :=
+        fun t ht => hall t ((mem_isort _ _ _).mp ht)
+      have hperm := isort_perm hexKeyT mid
+      refine ⟨⟨st, isort hexKeyT mid, c, rfl, hst, hcl, fun t ht => hmid t ((mem_isort _ _ _).mp ht)⟩, ?_, ?_⟩
+      · simp only [itemWF, groupWF, Bool.and_eq_true, getLast_shape, groupBody_shape,
+          show groupKey (st :: (isort hexKeyT mid ++ [c])) = st.val from rfl, hre, beq_self_eq_true, if_true]
+        refine ⟨hlast, ⟨?_, ?_⟩, ?_⟩
+        · rw [List.all_eq_true]; exact hall'
+        · rw [nodupN_iff] at hnd ⊢
+          exact ((hperm.map hexKeyT).nodup_iff).mpr hnd
+        · cases hm : mid with
+          | nil => simp [hm] at hne
+          | cons a r =>
+            have := hperm.length_eq
+            rw [hm] at this
+            cases hi : isort hexKeyT (a :: r) with
+            | nil => rw [hi] at this; simp at this
+            | cons _ _ => rfl
+      · -- sorted and pairwise different = strictly ascending
+        simp only [itemSorted, show groupKey (st :: (isort hexKeyT mid ++ [c])) = st.val from rfl, hre,
+          beq_self_eq_true, if_true, groupBody_shape]
+        rw [nodupN_iff] at hnd
+        exact isort_strict hexKeyT mid hnd
+    · have hk : ((Item.group (st :: (mid ++ [c]))).kind == BasePart.reactors) = false := by
+        rw [kind_of_shape]
+        simp only [beq_iff_eq, hre, if_false]
+        split <;> decide
+      simp only [hk, Bool.false_eq_true, if_false]
+      refine ⟨⟨st, mid, c, rfl, hst, hcl, hmid⟩, hw, ?_⟩
+      simp [itemSorted, show groupKey (st :: (mid ++ [c])) = st.val from rfl, hre]
+
+theorem kind_byKind (hc : Nat) (j : BasePart) (items : List Item) (hs : ∀ i ∈ items, ItemShape hc i) :
+    ∀ x ∈ byKind j items, x.kind = j := by
+  intro x hx
+  obtain ⟨i, _, _, hk⟩ := mem_byKind hc j items hs x hx
+  exact hk
+
+theorem filter_byKind (hc : Nat) (k j : BasePart) (items : List Item) (hs : ∀ i ∈ items, ItemShape hc i) :
+    (byKind j items).filter (fun i => i.kind == k) = if j = k then byKind j items else [] := by
+  have hk := kind_byKind hc j items hs
+  split
+  · rename_i e
+    rw [List.filter_eq_self]
+    intro a ha
+    rw [hk a ha, e]; simp
+  · rename_i e
+    rw [List.filter_eq_nil_iff]
+    intro a ha
+    rw [hk a ha]
+    simpa using e
+
+theorem filter_cItems (hc : Nat) (k : BasePart) (items : List Item) (hs : ∀ i ∈ items, ItemShape hc i) :
+    (cItems items).filter (fun i => i.kind == k) = byKind k items := by
+  simp only [cItems, List.filter_append, filter_byKind hc k _ items hs]
+  cases k <;> simp
+
+theorem countKind_cItems (hc : Nat) (k : BasePart) (items : List Item) (hs : ∀ i ∈ items, ItemShape hc i) :
+    countKind k (cItems items) = countKind k items := by
+  simp only [countKind, filter_cItems hc k items hs, byKind, List.length_map]
+
+theorem norm_of_not_reactors (i : Item) (h : (i.kind == BasePart.reactors) = false) : i.norm = i := by
+  cases i with
+  | handle t => rfl
+  | owner t => rfl
+  | group g => simp [Item.norm, h]
+
+theorem sortedLE_append (l1 l2 : List Nat) (h1 : sortedLE l1 = true) (h2 : sortedLE l2 = true)
+    (h : ∀ a ∈ l1, ∀ b ∈ l2, a ≤ b) : sortedLE (l1 ++ l2) = true := by
+  induction l1 with
+  | nil => simpa using h2
+  | cons a r ih =>
+    have ih' := ih (sortedLE_tail' _ _ h1) (fun x hx y hy => h x (List.mem_cons_of_mem _ hx) y hy)
+    cases r with
+    | nil =>
+      cases l2 with
+      | nil => rfl
+      | cons b r2 =>
+        simp only [List.cons_append, List.nil_append, sortedLE, Bool.and_eq_true, decide_eq_true_eq]
+        exact ⟨h a List.mem_cons_self b List.mem_cons_self, by simpa using h2⟩
+    | cons c r' =>
+      simp only [List.cons_append, sortedLE, Bool.and_eq_true, decide_eq_true_eq] at h1 ih' ⊢
+      exact ⟨h1.1, ih'⟩
+
+theorem sortedLE_const (j : Nat) (l : List Nat) (h : ∀ x ∈ l, x = j) : sortedLE l = true := by
+  induction l with
+  | nil => rfl
+  | cons a r ih =>
+    cases r with
+    | nil => rfl
+    | cons b r' =>
+      simp only [sortedLE, Bool.and_eq_true, decide_eq_true_eq]
+      refine ⟨?_, ih (fun x hx => h x (List.mem_cons_of_mem _ hx))⟩
+      rw [h a List.mem_cons_self, h b (by simp)]
+      exact Nat.le_refl _
+
+theorem stages_byKind (hc : Nat) (j : BasePart) (items : List Item) (hs : ∀ i ∈ items, ItemShape hc i) :
+    ∀ x ∈ (byKind j items).map (fun i => stage i.kind), x = stage j := by
+  intro x hx
+  obtain ⟨i, hi, rfl⟩ := List.mem_map.mp hx
+  rw [kind_byKind hc j items hs i hi]
+
+theorem cItems_wf (alive : V → Bool) (hc : Nat) (items : List Item) (hs : ∀ i ∈ items, ItemShape hc i)
+    (hw : itemsWF alive items = true) :
+    (∀ i ∈ cItems items, ItemShape hc i) ∧ itemsWF alive (cItems items) = true ∧ baseOrdered (cItems items) = true := by
+  have hall : items.all (itemWF alive) = true := (itemsWF_unpack alive items hw).2.2.2.2.2
+  rw [List.all_eq_true] at hall
+  have hmem : ∀ j ∈ cItems items, ItemShape hc j ∧ itemWF alive j = true ∧ itemSorted j = true := by
+    intro j hj
+    obtain ⟨i, hi, rfl⟩ := mem_cItems hc items hs j hj
+    exact norm_shape_wf alive hc i (hs i hi) (hall i hi)
+  refine ⟨fun j hj => (hmem j hj).1, ?_, ?_⟩
+  · simp only [itemsWF, Bool.and_eq_true, beq_iff_eq, decide_eq_true_eq] at hw ⊢
+    obtain ⟨⟨⟨⟨⟨h1, h2⟩, h3⟩, h4⟩, h5⟩, h6⟩ := hw
+    simp only [countKind_cItems hc _ items hs]
+    refine ⟨⟨⟨⟨⟨h1, h2⟩, h3⟩, h4⟩, ?_⟩, ?_⟩
+    · rw [filter_cItems hc _ items hs]
+      have : byKind .appdata items = items.filter (fun i => i.kind == .appdata) := by
+        simp only [byKind]
+        conv => rhs; rw [← List.map_id (items.filter (fun i => i.kind == .appdata))]
+        apply List.map_congr_left
+        intro a ha
+        simp only [List.mem_filter, beq_iff_eq] at ha
+        simp only [id]
+        apply norm_of_not_reactors
+        rw [ha.2]; rfl
+      rw [this]; exact h5
+    · rw [List.all_eq_true]; exact fun j hj => (hmem j hj).2.1
+  · simp only [baseOrdered, Bool.and_eq_true]
+    refine ⟨?_, ?_⟩
+    · simp only [cItems, List.map_append]
+      have c0 := stages_byKind hc .handle items hs
+      have c1 := stages_byKind hc .appdata items hs
+      have c2 := stages_byKind hc .xdict items hs
+      have c3 := stages_byKind hc .reactors items hs
+      have c4 := stages_byKind hc .owner items hs
+      refine sortedLE_append _ _ (sortedLE_append _ _ (sortedLE_append _ _ (sortedLE_append _ _
+        (sortedLE_const _ _ c0) (sortedLE_const _ _ c1) ?_) (sortedLE_const _ _ c2) ?_) (sortedLE_const _ _ c3) ?_)
+        (sortedLE_const _ _ c4) ?_
+      · intro a ha b hb; rw [c0 a ha, c1 b hb]; decide
+      · intro a ha b hb
+        rw [c2 b hb]
+        simp only [List.mem_append] at ha
+        rcases ha with ha | ha
+        · rw [c0 a ha]; decide
+        · rw [c1 a ha]; decide
+      · intro a ha b hb
+        rw [c3 b hb]
+        simp only [List.mem_append] at ha
+        rcases ha with (ha | ha) | ha
+        · rw [c0 a ha]; decide
+        · rw [c1 a ha]; decide
+        · rw [c2 a ha]; decide
+      · intro a ha b hb
+        rw [c4 b hb]
+        simp only [List.mem_append] at ha
+        rcases ha with ((ha | ha) | ha) | ha
+        · rw [c0 a ha]; decide
+        · rw [c1 a ha]; decide
+        · rw [c2 a ha]; decide
+        · rw [c3 a ha]; decide
+    · rw [List.all_eq_true]; exact fun j hj => (hmem j hj).2.2
+
+theorem strOnly_perm (a b : List Tag) (h : a.Perm b) (hs : strOnly b = true) : strOnly a = true := by
+  simp only [strOnly, List.all_eq_true] at hs ⊢
+  exact fun x hx => hs x (h.subset hx)
+
+/-- `canon t` is again well-formed, and it is in ezdxf's order -/
+theorem canon_wf (alive : V → Bool) (t : List Tag) (h : entityWF alive t = true) :
+    entityWF alive (canon t) = true ∧ entityOrdered (canon t) = true := by
+  obtain ⟨t0, r, items, rest, rfl, h0, hstr, hp, hiw, hrw⟩ := entityWF_unpack alive t h
+  obtain ⟨hhead, hshape⟩ := parseItems_shape _ r none items rest hp
+  simp only at hshape
+  obtain ⟨hs2, hw2, ho2⟩ := cItems_wf alive _ items hshape hiw
+  have hparse : parseItems (hcOf t0.val) (canonItems items ++ rest) none = some (cItems items, rest) := by
+    rw [← cItems_tags]
+    exact parseItems_of_items _ (hcOf_cases _) (cItems items) rest hs2 hhead
+  have hc : canon (t0 :: r) = t0 :: (canonItems items ++ rest) := by
+    simp only [canon, hp]; rfl
+  have hstr' : strOnly (canon (t0 :: r)) = true := strOnly_perm _ _ (canon_perm _) hstr
+  rw [hc] at hstr' ⊢
+  constructor
+  · simp only [entityWF, hparse, h0, hstr', hw2, hrw, beq_self_eq_true, Bool.and_self]
+  · simp only [entityOrdered, hparse, ho2]
+
+/-! ## document level: sections that ezdxf does not manage -/
+
+/-- one section of a well-formed file: SECTION head record (name + further tags, e.g. the HEADER variables), body records -/
+structure Sec where
+  name : List Nat
+  extra : List Tag
+  body : List Rec
+
+def Sec.head (s : Sec) : Rec := ⟨0, .str sSECTION⟩ :: ⟨2, .str s.name⟩ :: s.extra
+
+/-- the records of the section as `group_tags` delivers them -/
+def Sec.recs (s : Sec) : List Rec := s.head :: s.body ++ [[endsecTag]]
+
+/-- all tags of the section in file order, including (0, ENDSEC) -/
+def Sec.tags (s : Sec) : List Tag := (s.head :: s.body).flatten ++ [endsecTag]
+
+def fileOf (secs : List Sec) : List Rec := secs.flatMap Sec.recs ++ [[eofTag]]
+
+/-- body records are ordinary records -/
+def ordinary (r : Rec) : Bool := !isType sSECTION r && !isType sENDSEC r && !isType sEOF r
+
+def secWF (s : Sec) : Bool := s.body.all ordinary
+
+theorem loadLoop_body (body rest : List Rec) (S : List (V × List Rec)) (cur : List Rec) (e : Bool)
+    (h : body.all ordinary = true) :
+    loadLoop (body ++ rest) ⟨S, cur, e⟩ = loadLoop rest ⟨S, cur ++ body, e⟩ := by
+  induction body generalizing cur with
+  | nil => simp
+  | cons b r ih =>
+    simp only [List.all_cons, Bool.and_eq_true] at h
+    obtain ⟨hb, hr⟩ := h
+    simp only [ordinary, Bool.and_eq_true, Bool.not_eq_true'] at hb
+    obtain ⟨⟨h1, h2⟩, h3⟩ := hb
+    simp only [List.cons_append, loadLoop, loadStep, h1, h2, h3, Bool.false_eq_true, if_false]
+    rw [ih (cur ++ [b]) hr]
+    simp [List.append_assoc]
+
+theorem loadLoop_secs (secs : List Sec) (rest : List Rec) (S : List (V × List Rec)) (e : Bool)
+    (hwf : ∀ s ∈ secs, secWF s = true)
+    (hn : (S.map (·.1) ++ secs.map (fun s => V.str s.name)).Nodup) :
+    loadLoop (secs.flatMap Sec.recs ++ rest) ⟨S, [], e⟩
+      = loadLoop rest ⟨S ++ secs.map (fun s => (V.str s.name, s.head :: s.body)), [], e⟩ := by
+  induction secs generalizing S with
+  | nil => simp
+  | cons s r ih =>
+    have hs : secWF s = true := hwf s List.mem_cons_self
+    have h1 : isType sSECTION s.head = true := by simp [Sec.head, isType]
+    have h2 : isType sSECTION [endsecTag] = false := by decide
+    have h3 : isType sENDSEC [endsecTag] = true := by decide
+    simp only [List.flatMap_cons, Sec.recs, List.cons_append, List.append_assoc, loadLoop, loadStep, h1, if_true,
+      inside, Bool.false_eq_true, if_false]
+    rw [loadLoop_body s.body _ S [s.head] e hs]
+    simp only [List.cons_append, List.nil_append, loadLoop, loadStep, h2, h3, Bool.false_eq_true, if_false, if_true,
+      inside, h1, Bool.not_true]
+    have hname : sectionName s.head = some (.str s.name) := by simp [Sec.head, sectionName]
+    simp only [hname]
+    have hfresh : V.str s.name ∉ S.map (·.1) := by
+      intro hm
+      rw [List.nodup_append] at hn
+      exact hn.2.2 _ hm _ (by simp) rfl
+    rw [dictSet_fresh _ _ _ hfresh]
+    rw [ih (S ++ [(V.str s.name, s.head :: s.body)]) (fun x hx => hwf x (List.mem_cons_of_mem _ hx))
+      (by simpa [List.append_assoc] using hn)]
+    simp [List.append_assoc]
+
+theorem loadStructure_file (secs : List Sec) (hwf : ∀ s ∈ secs, secWF s = true)
+    (hn : (secs.map (fun s => s.name)).Nodup) :
+    loadStructure (fileOf secs) = .ok (secs.map (fun s => (V.str s.name, s.head :: s.body))) := by
+  have hn' : (([] : List (V × List Rec)).map (·.1) ++ secs.map (fun s => V.str s.name)).Nodup := by
+    simp only [List.map_nil, List.nil_append]
+    have : secs.map (fun s => V.str s.name) = (secs.map (fun s => s.name)).map V.str := by simp [List.map_map]
+    rw [this]
+    exact List.Pairwise.map V.str (fun a b h e => h (V.str.inj e)) hn
+  simp only [loadStructure, fileOf]
+  rw [loadLoop_secs secs [[eofTag]] [] false hwf hn']
+  have h1 : isType sSECTION [eofTag] = false := by decide
+  have h2 : isType sENDSEC [eofTag] = false := by decide
+  have h3 : isType sEOF [eofTag] = true := by decide
+  simp [loadLoop, loadStep, h1, h2, h3, inside]
+
+def unmanaged (s : Sec) : Bool := !isDeleted (.str s.name) && !isManaged (.str s.name)
+
+theorem passSections_file (secs : List Sec) (hwf : ∀ s ∈ secs, secWF s = true)
+    (hn : (secs.map (fun s => s.name)).Nodup) :
+    passSections (fileOf secs) = .ok ((secs.filter unmanaged).flatMap Sec.tags) := by
+  simp only [passSections, loadStructure_file secs hwf hn]
+  congr 1
+  simp only [storedSections, List.filter_filter]
+  clear hwf hn
+  induction secs with
+  | nil => rfl
+  | cons s r ih =>
+    simp only [exportStored, List.map_cons, List.filter_cons, unmanaged] at ih ⊢
+    by_cases h1 : isDeleted (.str s.name) = true
+    · simp only [h1, Bool.not_true, Bool.false_eq_true, if_false, Bool.false_and, Bool.and_false]
+      exact ih
+    · simp only [Bool.not_eq_true] at h1
+      by_cases h2 : isManaged (.str s.name) = true
+      · simp only [h1, h2, Bool.not_false, Bool.not_true, Bool.false_eq_true, if_false, Bool.and_false,
+          Bool.false_and]
+        exact ih
+      · simp only [Bool.not_eq_true] at h2
+        simp only [h1, h2, Bool.not_false, if_true, Bool.and_self, List.map_cons, List.flatMap_cons, Sec.tags]
+        rw [ih]
 
 end EzdxfVerif.Storage
